@@ -715,6 +715,10 @@ impl nervusdb_query::WriteableGraph for WriteTxn<'_> {
             .map_err(|e| nervusdb_query::Error::Other(e.to_string()))
     }
 
+    fn known_label_id(&self, name: &str) -> Option<LabelId> {
+        self.inner.known_label_id(name)
+    }
+
     fn get_or_create_rel_type_id(&mut self, name: &str) -> nervusdb_query::Result<RelTypeId> {
         self.inner
             .get_or_create_rel_type(name)
